@@ -293,16 +293,20 @@ PROPS.update({
     "C04": dict(obs_prop(["EyeballVerif.Props.C04", "EyeballVerif.Props.C04Lin"],
         "c04_mutual_exclusion (guards exclude, from WInv, every reachable state), c04_value_frame (only the store segment of set / a set_if_not_eq that differs / update changes the value, to exactly the value that call writes), "
         "c04_store_records_prev (set and set_if_not_eq record the replaced value; an equal set_if_not_eq changes nothing and returns None), c04_set_chain (along every run the "
-        "stores form a chain from the initial to the final value), c04_reads_current, c04_next_now_current, c04_observed_monotone",
+        "stores form a chain from the initial to the final value), c04_reads_current, c04_next_now_current, c04_observed_monotone; "
+        "c04_lin_step / c04_lin_run (linearizability stated outright: the atomic one-cell specification AS.apply run on the calls in the order of their linearization points "
+        "ends in the abstraction of the concrete final state, in what every subscriber has observed, and gives every call the result it returns — every schedule, any number of threads)",
         [{"name": "conc"}], extra_tb=[LOCKS]),
         claim=("Lean 4 theorems about the lock-level model, for every number of threads and every schedule: while a writer is in its critical section nobody holds the read lock and nobody else writes, and vice versa "
                "(c04_mutual_exclusion); only the segment in which a set, a set_if_not_eq whose value differs, or an update takes the write lock changes the value — to the argument, resp. the closure applied to the current value, so no "
                "update is lost — and set / set_if_not_eq record the value they replaced as the call's result, an equal set_if_not_eq changes nothing (c04_value_frame, c04_store_records_prev); hence along every run the "
                "stores are totally ordered and chained — returned previous values + final value = initial value + written values (c04_set_chain); get, next_now and the subscriber check read the current value, next_now "
-               "marking exactly the current version observed (c04_reads_current, c04_next_now_current); observed versions never go backwards while the observable is open (c04_observed_monotone). Each call's effect is one segment between its invocation and response: that is the linearization point. "
+               "marking exactly the current version observed (c04_reads_current, c04_next_now_current); observed versions never go backwards while the observable is open (c04_observed_monotone). Linearizability is stated outright in Props/C04Lin: an atomic specification of the cell (value, version) with set / set_if_not_eq / update / get / next_now / poll / close as single transitions, an abstraction "
+               "function (a writer that has replaced the value but not yet bumped the version counts as bumped), one linearization point per call lying among the call's own segments, the one-step simulation c04_lin_step and its "
+               "lift c04_lin_run to every schedule from every state satisfying the invariant: specification run in linearization order = abstraction of the final state, observed versions and results included. "
                "Tied to the code by forced schedules (a thread released into a held lock must block; results must equal the model's) and free-running rounds with the set-chain oracle; partial: the atomicity of "
                "a segment on real hardware is the lock's guarantee, validated, not proved."),
-        technique="Lean 4 proof (mutual-exclusion invariant, frame and chain lemmas over all interleavings) + forced-schedule correspondence on real threads",
+        technique="Lean 4 proof (mutual-exclusion invariant, frame and chain lemmas, linearizability by forward simulation to an atomic cell specification, over all interleavings) + forced-schedule correspondence on real threads",
         design_ref="DESIGN.md §6 C04"),
 })
 
